@@ -20,22 +20,10 @@ theorem ne_of_space {c d : Char} (h : isPySpace c = true) (hd : isPySpace d = fa
   rintro rfl; simp_all
 
 theorem isDigit_digitChar : ∀ d, d < 10 → isDigit (digitChar d) = true := by decide
-theorem digitChar_val : ∀ d, d < 10 → (digitChar d).toNat - 48 = d := by decide
-
-theorem word_not_space {c : Char} (h : isWord c = true) : isPySpace c = false := by
-  cases hs : isPySpace c with
-  | false => rfl
-  | true =>
-    exfalso
-    simp only [isWord, isIdStart, isDigit, isPySpace, Bool.or_eq_true, Bool.and_eq_true, decide_eq_true_eq, beq_iff_eq] at h hs
-    rcases h with ((h | h) | h) | h
-    · omega
-    · omega
-    · subst h; revert hs; decide
-    · omega
+theorem digitChar_val : ∀ d, d < 10 → digitVal (digitChar d) = d := by decide
 
 theorem digitsVal_foldl (ds : List Char) (a : Nat) :
-    ds.foldl (fun a c => 10 * a + (c.toNat - 48)) a = a * 10 ^ ds.length + digitsVal ds := by
+    ds.foldl (fun a c => 10 * a + digitVal c) a = a * 10 ^ ds.length + digitsVal ds := by
   induction ds generalizing a with
   | nil => simp [digitsVal]
   | cons c t ih =>
@@ -109,14 +97,6 @@ theorem length_fixDigits (k x : Nat) : (fixDigits k x).length = k := by
   | zero => rfl
   | succ k ih => simp [fixDigits, ih]
 
-theorem digit_not_space {c : Char} (h : isDigit c = true) : isPySpace c = false := by
-  cases hs : isPySpace c with
-  | false => rfl
-  | true =>
-    exfalso
-    simp only [isDigit, isPySpace, Bool.or_eq_true, Bool.and_eq_true, decide_eq_true_eq, beq_iff_eq] at h hs
-    omega
-
 theorem digit_ne {c d : Char} (h : isDigit c = true) (hd : isDigit d = false) : c ≠ d := by
   rintro rfl; simp_all
 
@@ -138,8 +118,9 @@ theorem sep_scanFrac {rest : List Char} (h : Sep rest) : scanFrac rest = ([], re
 theorem sep_not_digit {rest : List Char} (h : Sep rest) : ∀ c t, rest = c :: t → isDigit c = false := by
   intro c t hc
   have := (h c t hc).1
-  simp only [isWord, Bool.or_eq_false_iff] at this
-  exact this.2
+  cases hd : isDigit c with
+  | false => rfl
+  | true => rw [digit_word hd] at this; cases this
 
 theorem scanNumber_int (ip rest : List Char) (hne : ip ≠ []) (hip : AllDigits ip) (hr : Sep rest) :
     scanNumber (ip ++ rest) = some (decVal false ip [] 0, rest) := by
@@ -321,19 +302,6 @@ theorem isIdent_shape {cs : List Char} (h : isIdent cs = true) :
     simp only [isIdent, Bool.and_eq_true, List.all_eq_true] at h
     exact ⟨c, w, rfl, h.1, h.2⟩
 
-theorem idStart_word {c : Char} (h : isIdStart c = true) : isWord c = true := by simp [isWord, h]
-
-theorem idStart_not_digit {c : Char} (h : isIdStart c = true) : isDigit c = false := by
-  cases hd : isDigit c with
-  | false => rfl
-  | true =>
-    exfalso
-    simp only [isIdStart, isDigit, Bool.or_eq_true, Bool.and_eq_true, decide_eq_true_eq, beq_iff_eq] at h hd
-    rcases h with (h | h) | h
-    · omega
-    · omega
-    · subst h; revert hd; decide
-
 theorem idStart_ne {c d : Char} (h : isIdStart c = true) (hd : isIdStart d = false) : c ≠ d := by
   rintro rfl; simp_all
 
@@ -497,11 +465,6 @@ def Follow (rest : List Char) : Prop := Sep rest ∧ ∀ t, skipWs rest ≠ '(' 
 /-- the text behind a complete binary chain: additionally no binary operator follows -/
 def Stop (rest : List Char) : Prop := Follow rest ∧ scanBinOp rest = none
 
-theorem space_not_word {c : Char} (h : isPySpace c = true) : isWord c = false := by
-  cases hw : isWord c with
-  | false => rfl
-  | true => rw [word_not_space hw] at h; cases h
-
 theorem skipWs_allSpace {w : List Char} (hw : AllSpace w) : skipWs w = [] := by
   have := skipWs_append hw []
   simpa [skipWs] using this
@@ -620,11 +583,6 @@ theorem printNum_scan {q : Rat} (h : numOk q = true) :
         (allDigits_fixDigits _ _) hr
       rw [decVal_frac q k hk] at this
       simpa using this
-
-theorem digit_not_idStart {c : Char} (h : isDigit c = true) : isIdStart c = false := by
-  cases hi : isIdStart c with
-  | false => rfl
-  | true => rw [idStart_not_digit hi] at h; cases h
 
 /-- **number**: `parseUnary` reads a printed number back -/
 theorem parseUnary_number {q : Rat} (h : numOk q = true) {w : List Char} (hw : AllSpace w) {rest : List Char}
